@@ -133,6 +133,28 @@ def run_case(case):
         hb = Sh["halo_class"]
         if np.ptp(q2) > 0:
             sigs.append(f"{case['idx']}|dh")
+        # (c) with a halo: the footprint for a tower is the point reflection about the tower of the response to a unit source
+        # placed there, on the cells both returned fields cover
+        it, jt = int(rng.integers(nx2)), int(rng.integers(ny2))
+        unit2 = np.zeros((ny2, nx2))
+        unit2[jt, it] = 1.0
+        counters["solver_calls"] += 2
+        _, Gh, Fh = solve.solve(Sh, np.zeros((ny2, nx2)), lv2, precision=prec, footprint=True, meas_pt=(it * dx2, jt * dy2))
+        _, Rch, Rfh = solve.solve(Sh, unit2, lv2, precision=prec)
+        J2, I2 = 2 * jt - np.arange(ny2), 2 * it - np.arange(nx2)
+        okJ2, okI2 = (J2 >= 0) & (J2 < ny2), (I2 >= 0) & (I2 < nx2)
+        tolr = solve.tol(prec, Sh["G"])
+        for nm, A, B in (("flx", Fh, Rfh), ("conc", Gh, Rch)):
+            got = A[np.ix_(np.where(okJ2)[0], np.where(okI2)[0])]
+            exp = B[np.ix_(J2[okJ2], I2[okI2])]
+            scale = max(float(np.max(np.abs(B))), 1e-300)
+            e = float(np.max(np.abs(got - exp))) / scale
+            key = f"reflection_halo_{prec}"
+            resid[key] = max(resid.get(key, 0.0), e)
+            if e > tolr:
+                viol.append(dict(what="footprint_is_point_reflection_of_unit_response", field=nm, rel=e, tol=tolr, precision=prec, point=(it, jt),
+                                 halo=Sh["halo"], setup=gen.describe(Sh)))
+        sigs.append(f"{case['idx']}|ch")
     b = {f"prec:{prec}": 1, f"modes:{St['mode_class']}": 1, f"profiles:{St['pdesc'].get('closure', St['pdesc']['kind'])}": 1,
          f"recentre_halo:{hb}": 1, f"levels:{lkind}": 1, gen.gbucket(St["G"]): 1}
     return {"evals": 9 * nl + 2, "nontrivial": bool(sigs), "sig": sigs, "buckets": b, "resid": resid, "counters": counters,
